@@ -13,6 +13,8 @@
 //! and compared with that reference.
 //!
 //! Several complete sub-spaces are enumerated (the full product is too large), see `spaces()`.
+//! `names-collide` enumerates collisions of final glyph names (see `Clash` for what is asserted);
+//! the `g3-*` spaces compile Glyphs 3 twins of the order spaces (undeclared glyphs in file order).
 use dgen::{Axis, Component, Design, Glyph, Layer, shapes};
 use serde::{Deserialize, Serialize};
 use serde_json::{Value, json};
@@ -54,14 +56,17 @@ struct Case {
     /// (first, second) kerning entries (glyph or group names), value −50
     kern: Vec<(String, String)>,
     groups: BTreeMap<String, Vec<String>>,
+    /// compile the Glyphs 3 twin of the design (`Design::write_glyphs3`) instead of the UFO
+    #[serde(default)]
+    glyphs3: bool,
 }
 
 const KERN_VALUE: f64 = -50.0;
 
 /// stable per-name number that makes every glyph's drawing unique
 fn shape_id(name: &str) -> f64 {
-    const POOL: [&str; 12] = [
-        ".notdef", "A", "B", "C", "D", "E", "A.0", "A.1", "a", "Z", "A.alt", "b",
+    const POOL: [&str; 15] = [
+        ".notdef", "A", "B", "C", "D", "E", "A.0", "A.1", "a", "Z", "A.alt", "b", "A.2", "A.1.1", "B.1",
     ];
     POOL.iter().position(|n| *n == name).unwrap_or(POOL.len()) as f64
 }
@@ -357,6 +362,62 @@ fn space_names(tag: &str, n: usize, out: &mut Vec<Case>) {
     }
 }
 
+/// glyph names of the collision space: a name, its numbered forms (what the de-duplication of
+/// production names generates), a numbered form of a numbered form, and a second family
+const COLLIDE_POOL: [&str; 6] = ["A", "B", "A.1", "A.2", "A.1.1", "B.1"];
+/// every glyph of the collision space is encoded (one supplementary codepoint: format 12 subtable)
+const COLLIDE_CPS: [u32; 6] = [0x41, 0x42, 0x3B1, 0x3B2, 0x1F600, 0x62];
+/// public.postscriptNames entry per glyph: none, a name no glyph has (shared by 2..k glyphs), that
+/// name's first generated form, another glyph's own name, another glyph's own numbered name
+const COLLIDE_TARGETS: [Option<&str>; 5] = [None, Some("X"), Some("X.1"), Some("A"), Some("A.1")];
+
+/// S4b: collisions of final (production) names. Every glyph set of `sizes` glyphs over COLLIDE_POOL
+/// (+ .notdef) x every assignment of COLLIDE_TARGETS x public.glyphOrder absent / every permutation
+/// of the set x renaming on / off. All glyphs exported, simple and encoded.
+fn space_name_collisions(tag: &str, sizes: std::ops::RangeInclusive<usize>, out: &mut Vec<Case>) {
+    let np = COLLIDE_POOL.len();
+    let nt = COLLIDE_TARGETS.len();
+    for mask in 1u32..(1 << np) {
+        let idx: Vec<usize> = (0..np).filter(|i| mask & (1 << i) != 0).collect();
+        let k = idx.len();
+        if !sizes.contains(&k) {
+            continue;
+        }
+        let set: Vec<&str> = idx.iter().map(|i| COLLIDE_POOL[*i]).collect();
+        let mut glyphs = vec![simple(".notdef")];
+        for i in &idx {
+            let mut g = simple(COLLIDE_POOL[*i]);
+            g.cps = vec![COLLIDE_CPS[*i]];
+            glyphs.push(g);
+        }
+        let orders: Vec<Option<Vec<String>>> = std::iter::once(None)
+            .chain(ordered_subsets(&set).into_iter().filter(|o| o.len() == k).map(Some))
+            .collect();
+        for code in 0..nt.pow(k as u32) {
+            let mut ps = BTreeMap::new();
+            let mut c = code;
+            for name in &set {
+                if let Some(t) = COLLIDE_TARGETS[c % nt] {
+                    ps.insert(name.to_string(), t.to_string());
+                }
+                c /= nt;
+            }
+            for o in &orders {
+                for nopn in [false, true] {
+                    out.push(Case {
+                        space: tag.into(),
+                        glyphs: glyphs.clone(),
+                        ps: ps.clone(),
+                        order: o.clone(),
+                        no_production_names: nopn,
+                        ..Default::default()
+                    });
+                }
+            }
+        }
+    }
+}
+
 /// S5: derived glyphs: A = contour + component B; B simple or contour + component C;
 /// glyphs literally named A.0 / A.1 absent, exported or not exported; prefer-simple on/off
 fn space_derived(tag: &str, variable: bool, out: &mut Vec<Case>) {
@@ -509,6 +570,51 @@ fn spaces(tier: Tier) -> (Vec<Case>, Vec<Value>) {
     mark("names", "public.postscriptNames entry per glyph from {none, uniXXXX, shared 'dup', another glyph's name 'B', name with an illegal '-'} x --no-production-names x derived glyph x one glyph non-exported", &out, b);
 
     let b = out.len();
+    space_name_collisions("names-collide", 1..=tier.pick(3, 4), &mut out);
+    mark("names-collide", "collisions of final glyph names: every set of <= 3 (thorough: <= 4) glyphs over {A,B,A.1,A.2,A.1.1,B.1} x public.postscriptNames entry per glyph from {none,'X','X.1','A','A.1'} (2..k glyphs sharing a production name, another glyph's own name, names that look like a generated '.N' suffix) x public.glyphOrder absent / every permutation of the set x renaming on / --no-production-names", &out, b);
+
+    // Glyphs 3 twins (the same designs written by dgen's Glyphs 3 writer; glyphOrder custom parameter)
+    let b = out.len();
+    {
+        let mut tmp = vec![];
+        match tier {
+            Tier::Quick => space_order("g3-order", &n5, false, false, &mut tmp),
+            Tier::Thorough => space_order("g3-order", &n6, false, false, &mut tmp),
+        }
+        space_order("g3-order-alt", &alt[..tier.pick(4, 5)], false, false, &mut tmp);
+        match tier {
+            Tier::Quick => space_order("g3-order-export", &n4, true, false, &mut tmp),
+            Tier::Thorough => space_order("g3-order-export", &n5, true, false, &mut tmp),
+        }
+        for mut c in tmp {
+            c.glyphs3 = true;
+            out.push(c);
+        }
+    }
+    mark("g3-order", "Glyphs 3 twins (.glyphs written by dgen, declared order = glyphOrder custom parameter, export = 0) of the spaces order, order-alt and order-export", &out, b);
+
+    if tier == Tier::Thorough {
+        let b = out.len();
+        let mut tmp = vec![];
+        space_name_collisions("g3-names-collide", 1..=3, &mut tmp);
+        for mut c in tmp {
+            c.glyphs3 = true;
+            // a Glyphs source takes the production name of a glyph whose NAME is unknown to GlyphData from
+            // the GlyphData entry of its CODEPOINT (glyphsLib does the same): U+1F600 would rename A.1.1
+            // to u1F600. The twins use U+0063, whose entry has no production name.
+            for g in c.glyphs.iter_mut() {
+                for cp in g.cps.iter_mut() {
+                    if *cp == 0x1F600 {
+                        *cp = 0x63;
+                    }
+                }
+            }
+            out.push(c);
+        }
+        mark("g3-names-collide", "Glyphs 3 twins of names-collide with <= 3 glyphs (rename map = the glyphs' `production` entries; A.1.1 encoded as U+0063 instead of U+1F600)", &out, b);
+    }
+
+    let b = out.len();
     space_derived("derived", false, &mut out);
     space_derived("derived-var", true, &mut out);
     mark("derived", "mixed contour+component glyphs (one or two, nested) x glyphs named A.0/A.1 absent/exported/non-exported x prefer-simple on/off x export subsets x 3 declared orders; static and variable", &out, b);
@@ -542,6 +648,8 @@ struct Model {
     notdef_misplaced: bool,
     notdef_nonexport: bool,
     leftovers: usize,
+    /// the undeclared exported glyphs are not in byte order in the source file
+    file_order_matters: bool,
     declared_used: usize,
     inlined: usize,
     flat: BTreeMap<String, Flat>,
@@ -591,7 +699,7 @@ fn flat_of(d: &Design, name: &str, memo: &mut BTreeMap<String, Flat>, depth: usi
     f
 }
 
-fn model(d: &Design, opts: &fcx::Opts) -> Model {
+fn model(d: &Design, opts: &fcx::Opts, glyphs3: bool) -> Model {
     let present: Vec<&Glyph> = d.glyphs.iter().filter(|g| layer_of(d, g).is_some()).collect();
     let names: BTreeSet<String> = present.iter().map(|g| g.name.clone()).collect();
     let exported: BTreeSet<String> = present.iter().filter(|g| g.export).map(|g| g.name.clone()).collect();
@@ -605,8 +713,17 @@ fn model(d: &Design, opts: &fcx::Opts) -> Model {
         }
     }
     let declared_used_all = order.len();
-    let mut rest: Vec<String> = names.iter().filter(|n| !order.contains(n)).cloned().collect();
-    rest.sort_by(|a, b| a.as_bytes().cmp(b.as_bytes()));
+    // UFO: the rest sorted by name (ufo2ft `sorted`); Glyphs: the rest in file order
+    let mut rest: Vec<String> = present.iter().map(|g| g.name.clone()).filter(|n| !order.contains(n)).collect();
+    let mut rest_sorted = rest.clone();
+    rest_sorted.sort_by(|a, b| a.as_bytes().cmp(b.as_bytes()));
+    let rest_exported = |v: &[String]| -> Vec<String> {
+        v.iter().filter(|n| exported.contains(*n) && n.as_str() != ".notdef").cloned().collect()
+    };
+    let file_order_matters = rest_exported(&rest) != rest_exported(&rest_sorted);
+    if !glyphs3 {
+        rest = rest_sorted;
+    }
     order.extend(rest);
     let declared_used = order[..declared_used_all]
         .iter()
@@ -731,6 +848,7 @@ fn model(d: &Design, opts: &fcx::Opts) -> Model {
         notdef_misplaced,
         notdef_nonexport,
         leftovers,
+        file_order_matters,
         declared_used,
         inlined,
         flat: memo,
@@ -767,19 +885,21 @@ fn resolved(m: &Model, name: &str, depth: usize) -> (usize, Vec<Pt>) {
 /// ufo2ft postProcessor naming: rename through the map, drop characters outside [A-Za-z0-9._],
 /// make duplicates unique with `.N` (`_unique_name`)
 fn production_names(order: &[String], map: &BTreeMap<String, String>) -> Vec<String> {
+    production_names_counting(order, map).0
+}
+
+/// the same, plus how often a generated `.N` had to skip a name that was already taken
+fn production_names_counting(order: &[String], map: &BTreeMap<String, String>) -> (Vec<String>, u32) {
     let mut seen: BTreeMap<String, u32> = BTreeMap::new();
     let mut out = vec![];
+    let mut skips = 0;
     for g in order {
-        let mut name: String = map
-            .get(g)
-            .unwrap_or(g)
-            .chars()
-            .filter(|c| c.is_ascii_alphanumeric() || *c == '.' || *c == '_')
-            .collect();
+        let mut name: String = legal_name(map.get(g).unwrap_or(g));
         if let Some(n0) = seen.get(&name).copied() {
             let mut n = n0;
             while seen.contains_key(&format!("{name}.{n}")) {
                 n += 1;
+                skips += 1;
             }
             seen.insert(name.clone(), n + 1);
             name = format!("{name}.{n}");
@@ -787,7 +907,109 @@ fn production_names(order: &[String], map: &BTreeMap<String, String>) -> Vec<Str
         seen.insert(name.clone(), 1);
         out.push(name);
     }
-    out
+    (out, skips)
+}
+
+/// characters outside [A-Za-z0-9._] are dropped (AGL; ufo2ft postProcessor)
+fn legal_name(s: &str) -> String {
+    s.chars().filter(|c| c.is_ascii_alphanumeric() || *c == '.' || *c == '_').collect()
+}
+
+/// is `s` = `root` followed by one or more `.<digits>` segments (what de-duplication can generate from `root`)?
+fn numbered_form_of(s: &str, root: &str) -> bool {
+    let Some(rest) = s.strip_prefix(root) else { return false };
+    let mut it = rest.split('.');
+    if rest.is_empty() || it.next() != Some("") {
+        return false;
+    }
+    let mut n = 0;
+    for seg in it {
+        if seg.is_empty() || !seg.bytes().all(|b| b.is_ascii_digit()) {
+            return false;
+        }
+        n += 1;
+    }
+    n > 0
+}
+
+/// What the property (+ the documented ufo2ft rule "duplicates get a .N suffix, in glyph order") fixes
+/// about final names when several glyphs resolve to one name.
+///
+/// `plain[i]` = production name of glyph i before de-duplication. R = names that >= 2 glyphs resolve to.
+/// A glyph is *involved* when its plain name is in R or is a numbered form `r(.N)+` of some r in R
+/// (only such names can be generated, directly or by displacing a literal). Then:
+///   (1) all final names are pairwise distinct;
+///   (2) a glyph that is not involved keeps exactly its plain name;
+///   (3) the first glyph (in glyph order) of a name r in R keeps r, unless r is itself a numbered form
+///       of another name in R (it may have been handed out before that glyph is reached);
+///   (4) every involved glyph's final name is its plain name or a numbered form of it.
+/// Which N each duplicate gets is NOT asserted.
+struct Clash {
+    plain: Vec<String>,
+    involved: Vec<bool>,
+    first_keeps: Vec<bool>,
+    max_multiplicity: usize,
+    numbered_literal_involved: bool,
+}
+
+fn clash_of(order: &[String], map: &BTreeMap<String, String>) -> Clash {
+    let plain: Vec<String> = order.iter().map(|g| legal_name(map.get(g).unwrap_or(g))).collect();
+    let mut mult: BTreeMap<&String, usize> = BTreeMap::new();
+    for p in &plain {
+        *mult.entry(p).or_default() += 1;
+    }
+    let roots: Vec<&String> = mult.iter().filter(|(_, n)| **n >= 2).map(|(p, _)| *p).collect();
+    let shadowed = |p: &String| roots.iter().any(|r| numbered_form_of(p, r));
+    let involved: Vec<bool> = plain.iter().map(|p| roots.contains(&p) || shadowed(p)).collect();
+    let first_keeps: Vec<bool> = plain
+        .iter()
+        .enumerate()
+        .map(|(i, p)| roots.contains(&p) && !shadowed(p) && plain[..i].iter().all(|q| q != p))
+        .collect();
+    let numbered_literal_involved = plain.iter().any(|p| shadowed(p));
+    let max_multiplicity = mult.values().copied().max().unwrap_or(0);
+    Clash { plain, involved, first_keeps, max_multiplicity, numbered_literal_involved }
+}
+
+impl Clash {
+    fn any(&self) -> bool {
+        self.involved.iter().any(|x| *x)
+    }
+    /// Err((key suffix, what)) for the first of (1)..(4) that `names` breaks
+    fn check(&self, names: &[String]) -> Result<(), (&'static str, String)> {
+        if names.len() != self.plain.len() {
+            return Err(("count", format!("{} names for {} glyphs", names.len(), self.plain.len())));
+        }
+        let uniq: BTreeSet<&String> = names.iter().collect();
+        if uniq.len() != names.len() {
+            return Err(("duplicate", "two glyph ids share one name".into()));
+        }
+        for (i, n) in names.iter().enumerate() {
+            if !self.involved[i] && *n != self.plain[i] {
+                return Err((
+                    "non-colliding-glyph-renamed",
+                    format!("glyph {i} resolves to '{}', which no other glyph resolves to and de-duplication cannot generate, but is named '{n}'", self.plain[i]),
+                ));
+            }
+        }
+        for (i, n) in names.iter().enumerate() {
+            if self.first_keeps[i] && *n != self.plain[i] {
+                return Err((
+                    "first-occurrence-renamed",
+                    format!("glyph {i} is the first in glyph order to resolve to '{}' but is named '{n}'", self.plain[i]),
+                ));
+            }
+        }
+        for (i, n) in names.iter().enumerate() {
+            if self.involved[i] && *n != self.plain[i] && !numbered_form_of(n, &self.plain[i]) {
+                return Err((
+                    "duplicate-not-suffixed",
+                    format!("glyph {i} resolves to '{}' but is named '{n}', which is not that name plus '.N'", self.plain[i]),
+                ));
+            }
+        }
+        Ok(())
+    }
 }
 
 // ------------------------------------------------------------------------------------ font reading
@@ -1073,6 +1295,58 @@ fn gpos_pairs(font: &FontRef, n: u32) -> Result<(BTreeMap<(u32, u32), i32>, usiz
 
 // ------------------------------------------------------------------------------------ judging
 
+/// key of a glyph-order violation: the part of the reference order in which the first wrong id lies
+fn order_key(first_bad: usize, m: &Model) -> String {
+    let part = if first_bad <= m.declared_used {
+        "declared"
+    } else if first_bad < m.fixed.len() {
+        "leftovers"
+    } else {
+        "derived"
+    };
+    format!(
+        "glyph-order:{part}{}",
+        if m.notdef_misplaced { ":notdef-misplaced" } else if m.notdef_synth { ":notdef-synthesised" } else { "" }
+    )
+}
+
+/// The source glyph each glyph id carries, read off hmtx; None when the advances are not exactly the
+/// source's (then nothing is concluded here and the ordinary checks speak).
+fn order_by_advance(bytes: &[u8], expected: &[String], m: &Model) -> Option<Vec<String>> {
+    let hhea = raw_table(bytes, b"hhea")?;
+    let hmtx = raw_table(bytes, b"hmtx")?;
+    let n = expected.len() as u32;
+    let nhm = be16(hhea, 34)?;
+    if nhm == 0 || nhm > n || hmtx.len() as u32 != 4 * nhm + 2 * (n - nhm) {
+        return None;
+    }
+    let mut by_adv: BTreeMap<i32, &String> = BTreeMap::new();
+    for name in expected {
+        if name == ".notdef" && m.notdef_synth {
+            continue;
+        }
+        if by_adv.insert(*m.advances.get(name)?, name).is_some() {
+            return None;
+        }
+    }
+    let mut out = vec![];
+    let mut unmatched = 0;
+    for gid in 0..n {
+        let a = be16(hmtx, 4 * gid.min(nhm - 1) as usize)? as i32;
+        match by_adv.get(&a) {
+            Some(nm) => out.push((*nm).clone()),
+            None => {
+                unmatched += 1;
+                out.push(".notdef".to_string());
+            }
+        }
+    }
+    let (mut x, mut y) = (out.clone(), expected.to_vec());
+    x.sort();
+    y.sort();
+    (unmatched == m.notdef_synth as usize && x == y).then_some(out)
+}
+
 #[derive(Default, Debug, Clone, Serialize, Deserialize)]
 struct Stats {
     evaluations: u64,
@@ -1092,6 +1366,17 @@ struct Stats {
     inlined_non_export_components: u64,
     renamed: u64,
     deduplicated_production_names: u64,
+    dedup_three_or_more_share_a_name: u64,
+    dedup_numbered_name_involved: u64,
+    dedup_taken_suffix_skipped: u64,
+    dedup_first_occurrences_checked: u64,
+    dedup_bystanders_checked: u64,
+    dedup_numbering_differs_from_ufo2ft: u64,
+    production_name_is_another_glyphs_name: u64,
+    renaming_off_with_map: u64,
+    glyphs3_cases: u64,
+    glyphs3_compiled: u64,
+    glyphs3_undeclared_not_in_byte_order: u64,
     derived_glyph: u64,
     derived_two: u64,
     derived_order_differs_from_model: u64,
@@ -1136,9 +1421,10 @@ fn msg_class(m: &str) -> String {
     s.chars().take(70).collect()
 }
 
-fn judge(d: &Design, opts: &fcx::Opts, variable: bool, result: &Result<Vec<u8>, fcx::Failure>) -> Verdict {
-    let m = model(d, opts);
+fn judge(d: &Design, opts: &fcx::Opts, variable: bool, glyphs3: bool, result: &Result<Vec<u8>, fcx::Failure>) -> Verdict {
+    let m = model(d, opts, glyphs3);
     let mut st = Stats { evaluations: 1, ..Default::default() };
+    st.glyphs3_cases = glyphs3 as u64;
     st.cases_with_non_exported_notdef = m.notdef_nonexport as u64;
     st.cases_with_derived_name_of_non_exported_glyph = m.derived.iter().any(|(n, _)| m.non_exported.contains(n)) as u64;
     let mut viol: Vec<(String, String)> = vec![];
@@ -1150,6 +1436,8 @@ fn judge(d: &Design, opts: &fcx::Opts, variable: bool, result: &Result<Vec<u8>, 
         "glyphs": d.glyphs.iter().map(|g| format!("{}{}{}", g.name, if g.export {""} else {"(skip)"},
             if g.codepoints.is_empty() { String::new() } else { format!("{:X?}", g.codepoints) })).collect::<Vec<_>>(),
         "public.glyphOrder": d.glyph_order,
+        "public.postscriptNames": d.postscript_names,
+        "format": if glyphs3 { "glyphs3" } else if variable { "designspace" } else { "ufo" },
         "opts": opts.name(),
         "expected_order": expected,
     });
@@ -1181,6 +1469,8 @@ fn judge(d: &Design, opts: &fcx::Opts, variable: bool, result: &Result<Vec<u8>, 
         Ok(b) => b,
     };
     st.compiled = 1;
+    st.glyphs3_compiled = glyphs3 as u64;
+    st.glyphs3_undeclared_not_in_byte_order = (glyphs3 && m.file_order_matters) as u64;
     if fea_glyphs_missing {
         st.fea_on_missing_glyph_compiled = 1;
     }
@@ -1227,7 +1517,9 @@ fn judge(d: &Design, opts: &fcx::Opts, variable: bool, result: &Result<Vec<u8>, 
     }
 
     // ---- post names
-    let use_prod = !opts.no_production_names && !d.postscript_names.is_empty();
+    // a Glyphs source always carries a (possibly empty) rename map; a UFO only with public.postscriptNames
+    let use_prod = !opts.no_production_names && (glyphs3 || !d.postscript_names.is_empty());
+    st.renaming_off_with_map = (opts.no_production_names && !d.postscript_names.is_empty()) as u64;
     let mut names: Vec<String> = vec![];
     let mut post_ok = false;
     match font.post() {
@@ -1257,27 +1549,56 @@ fn judge(d: &Design, opts: &fcx::Opts, variable: bool, result: &Result<Vec<u8>, 
     }
     // actual[gid] = source-level glyph name the font assigns to that id
     let mut actual: Vec<String> = expected.clone();
+    if post_ok && use_prod && n == n_exp {
+        // renamed post names do not say which source glyph sits at which id; the advance widths do
+        // (every source glyph of the enumerated designs has its own). A font whose glyphs are the
+        // source's in another order is ONE defect (glyph order), reported under one key.
+        if let Some(perm) = order_by_advance(bytes, &expected, &m) {
+            if let Some(first_bad) = perm.iter().zip(&expected).position(|(x, y)| x != y) {
+                viol.push((
+                    order_key(first_bad, &m),
+                    format!("the glyphs (identified by their advance widths) are in the order {perm:?}, the source determines {expected:?}; post names {names:?}"),
+                ));
+                return Verdict { stats: st, viol, nontrivial: false, summary };
+            }
+        }
+    }
     if post_ok {
         let uniq: BTreeSet<&String> = names.iter().collect();
         if uniq.len() != names.len() {
             viol.push((
                 "post:duplicate-name".into(),
-                format!("post names are not one-to-one: {names:?}"),
+                format!("post names are not one-to-one (two glyph ids share a name): {names:?}; glyph order {expected:?}, rename map {:?}", d.postscript_names),
             ));
+            // one defect, one key: nothing else can be read off names that are not one-to-one
+            return Verdict { stats: st, viol, nontrivial: false, summary };
         }
         let forward = |order: &[String]| -> Vec<String> {
             if use_prod { production_names(order, &d.postscript_names) } else { order.to_vec() }
         };
         let exp_names = forward(&expected);
+        // several glyphs resolving to one final name: only what the property fixes is asserted
+        let clash = use_prod.then(|| clash_of(&expected, &d.postscript_names)).filter(|c| c.any());
         if use_prod {
             st.renamed = (exp_names != expected) as u64;
-            let plain: Vec<String> = expected
+            st.production_name_is_another_glyphs_name = expected
                 .iter()
-                .map(|g| d.postscript_names.get(g).unwrap_or(g).chars().filter(|c| c.is_ascii_alphanumeric() || *c == '.' || *c == '_').collect())
-                .collect();
-            st.deduplicated_production_names = (plain != exp_names) as u64;
+                .any(|g| d.postscript_names.get(g).is_some_and(|t| t != g && expected.contains(&legal_name(t)))) as u64;
         }
-        if names != exp_names && n == n_exp {
+        if let Some(c) = &clash {
+            st.deduplicated_production_names = 1;
+            st.dedup_three_or_more_share_a_name = (c.max_multiplicity >= 3) as u64;
+            st.dedup_numbered_name_involved = c.numbered_literal_involved as u64;
+            st.dedup_taken_suffix_skipped = (production_names_counting(&expected, &d.postscript_names).1 > 0) as u64;
+            st.dedup_first_occurrences_checked = c.first_keeps.iter().filter(|x| **x).count() as u64;
+            st.dedup_bystanders_checked = c.involved.iter().filter(|x| !**x).count() as u64;
+        }
+        let weak = clash.as_ref().map(|c| c.check(&names));
+        if names != exp_names && n == n_exp && matches!(weak, Some(Ok(()))) {
+            // distinct, bystanders and first occurrences untouched, duplicates suffixed: only the
+            // numbers differ from ufo2ft's _unique_name, which the property does not fix
+            st.dedup_numbering_differs_from_ufo2ft = 1;
+        } else if names != exp_names && n == n_exp {
             // is it only the order among the derived glyphs (which the property does not fix)?
             let k = m.fixed.len();
             let mut alt_ok = false;
@@ -1299,25 +1620,21 @@ fn judge(d: &Design, opts: &fcx::Opts, variable: bool, result: &Result<Vec<u8>, 
                 } else if a == b {
                     // same names, different order: name the part of the reference that is off
                     let first_bad = names.iter().zip(&exp_names).position(|(x, y)| x != y).unwrap_or(0);
-                    let part = if first_bad <= m.declared_used {
-                        "declared"
-                    } else if first_bad < m.fixed.len() {
-                        "leftovers"
-                    } else {
-                        "derived"
-                    };
-                    format!(
-                        "glyph-order:{part}{}",
-                        if m.notdef_misplaced { ":notdef-misplaced" } else if m.notdef_synth { ":notdef-synthesised" } else { "" }
-                    )
+                    order_key(first_bad, &m)
                 } else if b.iter().any(|x| !a.contains(*x)) && a.iter().any(|x| m.non_exported.contains(*x) && !b.contains(*x)) {
                     "post:non-exported-name-present".to_string()
+                } else if let Some(Err((k, _))) = &weak {
+                    format!("post:production-name:{k}")
                 } else if use_prod {
                     "post:production-name".to_string()
                 } else {
                     "post:name-set".to_string()
                 };
-                viol.push((key, format!("post glyph names {names:?}, the source determines {exp_names:?}")));
+                let why = match &weak {
+                    Some(Err((_, w))) => format!(" ({w}; rename map {:?})", d.postscript_names),
+                    _ => String::new(),
+                };
+                viol.push((key, format!("post glyph names {names:?}, the source determines {exp_names:?}{why}")));
                 // one defect, one key: the remaining tables are checked against the order the font
                 // really has when that can be read off the names, otherwise not at all
                 if !use_prod && a == b && uniq.len() == names.len() {
@@ -1561,22 +1878,35 @@ fn judge(d: &Design, opts: &fcx::Opts, variable: bool, result: &Result<Vec<u8>, 
     Verdict { stats: st, viol, nontrivial, summary }
 }
 
-fn run_design(d: &Design, opts: &fcx::Opts, variable: bool) -> (Verdict, Result<Vec<u8>, fcx::Failure>) {
-    let sc = vcore::Scratch::new("c06");
-    let path = if variable {
-        d.write_designspace(sc.path())
+fn write_source(d: &Design, dir: &std::path::Path, variable: bool, glyphs3: bool) -> std::path::PathBuf {
+    if glyphs3 {
+        d.write_glyphs3(dir)
+    } else if variable {
+        d.write_designspace(dir)
     } else {
-        d.write_single_ufo(sc.path())
+        d.write_single_ufo(dir)
     }
-    .unwrap_or_else(|e| vcore::machinery_error(&format!("writing the source: {e}")));
+    .unwrap_or_else(|e| vcore::machinery_error(&format!("writing the source: {e}")))
+}
+
+fn run_design(d: &Design, opts: &fcx::Opts, variable: bool, glyphs3: bool) -> (Verdict, Result<Vec<u8>, fcx::Failure>) {
+    if glyphs3 {
+        let why = d.glyphs_unrepresentable();
+        if !why.is_empty() {
+            vcore::machinery_error(&format!("a design of a Glyphs 3 twin space is not representable: {why:?}"));
+        }
+    }
+    let sc = vcore::Scratch::new("c06");
+    let path = write_source(d, sc.path(), variable, glyphs3);
     let r = fcx::compile(&path, opts, None);
-    (judge(d, opts, variable, &r), r)
+    (judge(d, opts, variable, glyphs3, &r), r)
 }
 
 fn replay(path: &std::path::Path) -> ! {
     let s = std::fs::read_to_string(path).unwrap_or_else(|e| vcore::machinery_error(&format!("{path:?}: {e}")));
     let v: Value = serde_json::from_str(&s).unwrap_or_else(|e| vcore::machinery_error(&format!("{path:?}: {e}")));
     let r = v.get("replay").cloned().unwrap_or(v);
+    let glyphs3 = r["case"]["glyphs3"].as_bool().or(r["glyphs3"].as_bool()).unwrap_or(false);
     let (d, opts, variable) = if r.get("case").is_some_and(|c| !c.is_null()) {
         let case: Case = serde_json::from_value(r["case"].clone()).unwrap_or_else(|e| vcore::machinery_error(&format!("case: {e}")));
         let (d, opts) = build(&case);
@@ -1586,7 +1916,10 @@ fn replay(path: &std::path::Path) -> ! {
         let opts: fcx::Opts = serde_json::from_value(r["opts"].clone()).unwrap_or_else(|e| vcore::machinery_error(&format!("opts: {e}")));
         (d, opts, r["variable"].as_bool().unwrap_or(false))
     };
-    let (v, res) = run_design(&d, &opts, variable);
+    let (v, res) = run_design(&d, &opts, variable, glyphs3);
+    if glyphs3 {
+        println!("source format: Glyphs 3 (.glyphs written by dgen)");
+    }
     println!("case: {}", serde_json::to_string_pretty(&v.summary).unwrap());
     match &res {
         Ok(b) => println!("compiled: {} bytes", b.len()),
@@ -1596,8 +1929,7 @@ fn replay(path: &std::path::Path) -> ! {
     let bin = vcore::fontc_bin();
     if bin.is_file() {
         let sc = vcore::Scratch::new("c06-replay");
-        let src = if variable { d.write_designspace(sc.path()) } else { d.write_single_ufo(sc.path()) }
-            .unwrap_or_else(|e| vcore::machinery_error(&format!("writing the source: {e}")));
+        let src = write_source(&d, sc.path(), variable, glyphs3);
         let mut cmd = vcore::fontc_cmd(&bin, None);
         cmd.arg(&src).arg("-o").arg(sc.join("out.ttf")).arg("--build-dir").arg(sc.join("build"));
         cmd.args(opts.cli_args());
@@ -1607,7 +1939,7 @@ fn replay(path: &std::path::Path) -> ! {
             println!("  | {l}");
         }
         if let Ok(b) = std::fs::read(sc.join("out.ttf")) {
-            let v2 = judge(&d, &opts, variable, &Ok(b));
+            let v2 = judge(&d, &opts, variable, glyphs3, &Ok(b));
             println!("  font written by the product binary: {} violation(s)", v2.viol.len());
             for (k, w) in &v2.viol {
                 println!("  VIOLATION {k}: {w}");
@@ -1648,7 +1980,7 @@ fn main() {
         let mut hashes: Vec<u64> = vec![];
         for (k, case) in cases[ci * chunk..((ci + 1) * chunk).min(cases.len())].iter().enumerate() {
             let (d, opts) = build(case);
-            let (v, _) = run_design(&d, &opts, case.variable);
+            let (v, _) = run_design(&d, &opts, case.variable, case.glyphs3);
             add_stats(&mut st, &v.stats);
             if v.nontrivial {
                 let mut canon = case.clone();
@@ -1668,7 +2000,7 @@ fn main() {
                         format!("[{}] {what}; case {}", case.space, v.summary),
                         // `case` is everything needed (build() is deterministic); the Design is added
                         // for readers when it serialises (tuple-keyed kerning maps do not)
-                        json!({"case": case, "opts": opts, "variable": case.variable,
+                        json!({"case": case, "opts": opts, "variable": case.variable, "glyphs3": case.glyphs3,
                                "design": serde_json::to_value(&d).unwrap_or(Value::Null)}),
                     ));
                 }
@@ -1699,7 +2031,10 @@ fn main() {
     rep.set("spaces", notes);
     rep.set("samples", samples);
     rep.set("exhaustive", true);
-    rep.assume("source format: UFO 3 / designspace 4.1 written by dgen (a Glyphs-format twin is not enumerated yet); glyph names over {.notdef,A,B,C,D,E,a,Z,A.alt,A.0,A.1}; public.glyphOrder without repeated names");
+    rep.assume("source format: UFO 3 / designspace 4.1 written by dgen; Glyphs 3 twins only of the spaces order, order-alt, order-export (static, no rename map) and, thorough tier, names-collide with <= 3 glyphs (rename map written as `production` entries); glyph names over {.notdef,A,B,C,D,E,a,Z,A.alt,A.0,A.1,A.2,A.1.1,B.1}; public.glyphOrder without repeated names");
+    rep.assume("Glyphs 3 twin: declared order = the glyphOrder custom parameter; undeclared glyphs follow in FILE order (glyphs-reader make_glyph_order, Glyphs.app's own order) where a UFO sorts them by name — the property only asks for a fixed order (fontmake would sort the rest of a partial glyphOrder via ufo2ft; not judged, cases where the two differ are counted in glyphs3_undeclared_not_in_byte_order); the production name of a twin's glyph is its `production` entry, else its own name (names and codepoints chosen so that GlyphData does not rename them: a Glyphs source, like glyphsLib, gives a glyph whose name GlyphData does not know the production name of its codepoint's entry, e.g. U+1F600 -> u1F600, so the names-collide twins encode A.1.1 as U+0063 instead)");
+    rep.assume("several glyphs resolving to one final name (names-collide, names): asserted are (1) final names pairwise distinct, (2) a glyph whose production name no other glyph resolves to and that is not a numbered form r(.N)+ of a shared name r keeps exactly that name, (3) the first glyph in glyph order of a shared name keeps it (unless the shared name is itself a numbered form of another shared name), (4) the others get that name plus '.N' segments — fontbe/src/post.rs documents that it follows ufo2ft's _unique_name. WHICH N a duplicate gets is not fixed by the property: agreement with ufo2ft's numbering is measured (dedup_numbering_differs_from_ufo2ft), not judged");
+    rep.assume("with --no-production-names public.postscriptNames must have no effect at all (post names = source names), whatever it maps (renaming_off_with_map cases)");
     rep.assume("two EXPORTED glyphs claiming one codepoint: the property cannot hold; the compiler must refuse (ufo2ft raises InvalidFontData, write-fonts returns CmapConflict) — an error is counted as expected, a built font is a violation");
     rep.assume("the order of several derived glyphs among themselves is not fixed by the property: the modelled creation order or its reverse are both accepted (counted in derived_order_differs_from_model)");
     rep.assume("a derived name X.<n> may reuse the name of a NON-exported source glyph X.<n> (names in use = glyphs of the font); its outline must then be the deriving glyph's contours");
